@@ -6,7 +6,7 @@ import (
 	"strings"
 	"time"
 
-	"github.com/rulego/streamsql/utils/simrt"
+	"verif.local/simrt"
 )
 
 // C17 — global window fires a group exactly when TRIGGER WHEN holds, then restarts it
@@ -70,6 +70,11 @@ func (c17) Gen(rng *simrt.Rand, seed uint64, tier string) *Case {
 		aggs += ", sum(w) AS sw, max(w) AS mxw"
 		c.X["sel_w"] = true
 	}
+	// NULL inputs for the predicate's aggregates only where the predicate's value does not depend on
+	// how a comparison with a NULL aggregate combines under OR (not-true vs evaluation failure:
+	// the two readings differ there, and the statement does not pick one)
+	nullW := (nterms == 1 || conn == "AND") && rng.Bool(0.5)
+	c.X["null_w"] = nullW
 	maxRows := 50
 	if tier == "thorough" {
 		maxRows = 110
@@ -80,6 +85,14 @@ func (c17) Gen(rng *simrt.Rand, seed uint64, tier string) *Case {
 	for i := 0; i < n; i++ {
 		tup := tuples[rng.Intn(len(tuples))]
 		row := Row{"id": fmt.Sprintf("r%03d", i), "w": 1 + rng.Intn(9)}
+		if nullW {
+			switch rng.Intn(8) { // NULL / missing inputs of the predicate's own aggregates as well
+			case 0:
+				row["w"] = nil
+			case 1:
+				delete(row, "w")
+			}
+		}
 		for k, col := range keyCols {
 			if tup[k] == nil && rng.Bool(0.5) {
 				continue
@@ -275,14 +288,19 @@ func (c17) Run(e *Env) {
 				e.Violate("C17/aggregate-mismatch", "", "group %s result #%d: %s", g, i+1, msg)
 			}
 			if e.C.xBool("sel_w") {
-				sw, mxw := 0.0, math.Inf(-1)
+				sw, mxw, nw := 0.0, math.Inf(-1), 0
 				for _, id := range r.IDs {
 					if w, ok := toFloat(byID[id]["w"]); ok {
 						sw += w
 						mxw = math.Max(mxw, w)
+						nw++
 					}
 				}
-				if !numEq(row["sw"], sw) || !numEq(row["mxw"], mxw) {
+				if nw == 0 {
+					if row["mxw"] != nil || !(row["sw"] == nil || numEq(row["sw"], 0)) {
+						e.Violate("C17/aggregate-mismatch", "", "group %s result #%d: sum(w)=%v max(w)=%v over no usable input", g, i+1, row["sw"], row["mxw"])
+					}
+				} else if !numEq(row["sw"], sw) || !numEq(row["mxw"], mxw) {
 					e.Violate("C17/aggregate-mismatch", "", "group %s result #%d: sum(w)=%v max(w)=%v, rows give %v %v", g, i+1, row["sw"], row["mxw"], sw, mxw)
 				}
 			}
@@ -305,6 +323,9 @@ func (c17) Run(e *Env) {
 	}
 	if len(order) > 1 {
 		e.Probe("multi_group")
+	}
+	if e.C.xBool("null_w") {
+		e.Probe("null_inputs_for_predicate_aggregates")
 	}
 	e.R.Summary = map[string]any{"groups": len(order), "fires": fires, "rows": len(byID), "strategy": in.Spec.Perf.Strategy}
 }
